@@ -142,8 +142,9 @@ def real_attempt(rnd):
     return sc
 
 
-def run_real_persist(attempts):
-    """persist() driving a real WebSocket; returns (names of yielded events, how it ended, attempts made)"""
+def run_real_persist(attempts, react=None):
+    """persist() driving a real WebSocket; returns (names of yielded events, how it ended, attempts made).
+    react: {(attempt index, event name): "close" | "text"} -- what the consumer of persist()'s events does at that event"""
     import lomond.websocket as W
     import lomond.session as S
     import lomond.persist as P
@@ -187,8 +188,18 @@ def run_real_persist(attempts):
     names = []
     ended = "running"
     try:
-        for ev in P.persist(WS("ws://example.test/chat"), min_wait=0, max_wait=1, exit_event=Exit()):
+        wsobj = WS("ws://example.test/chat")
+        for ev in P.persist(wsobj, min_wait=0, max_wait=1, exit_event=Exit()):
             names.append(ev.name)
+            what = (react or {}).get((len(runs) - 1, ev.name))
+            if what:
+                try:
+                    if what == "close":
+                        wsobj.close()
+                    else:
+                        wsobj.send_text(u"hello")
+                except Exception:
+                    pass
         ended = "returned"
     except (ScriptEnd, simnet.Blocked):
         ended = "running"
@@ -200,8 +211,8 @@ def run_real_persist(attempts):
     return names, ended, len(runs), open_socks
 
 
-def judge_real(attempts):
-    names, ended, made, open_socks = run_real_persist(attempts)
+def judge_real(attempts, react=None):
+    names, ended, made, open_socks = run_real_persist(attempts, react)
     bad = None
     if ended != "running" or made != len(attempts):
         bad = "persist() over real connection attempts ended by itself (%s) after %d of %d scripted attempts (%s)" % (ended, made, len(attempts), [a.get("_kind") for a in attempts][:made])
@@ -216,14 +227,18 @@ def real_family(rep, rnd, n):
     cases = 0
     for i in range(n):
         attempts = [real_attempt(rnd) for _ in range(rnd.choice([2, 4, 8]))]
-        bad = judge_real(attempts)
+        # the application reacts to some events: close() or a send, also before the connection exists
+        react = {}
+        for _ in range(rnd.choice([0, 0, 1, 2])):
+            react[(rnd.randrange(len(attempts)), rnd.choice(["connecting", "connecting", "connected", "ready", "back_off", "connect_fail", "disconnected"]))] = rnd.choice(["close", "close", "text"])
+        bad = judge_real(attempts, react)
         cases += 1
         rep.add_case(("real-persist", i))
         for a in attempts:
             rep.count("real_attempt", a["_kind"])
         if bad:
-            rep.violation(bad, scenario=dict(kind="real-persist", attempts=[fam.jsonable_sc(fam.strip_meta(a)) for a in attempts]), family="C16:real-attempts")
-    rep.families.append(dict(name="C16:real-attempts", cases=cases, rule="persist() driving the REAL WebSocket/WebsocketSession over the simulated network through 2-8 attempts that fail in different ways (resolver/connect failure, request write failing with various errnos and error texts, rejection, EOF, garbage, protocol error, recv failure): it must never end by itself, must back off after every attempt and leave no socket open"))
+            rep.violation(bad, scenario=dict(kind="real-persist", attempts=[fam.jsonable_sc(fam.strip_meta(a)) for a in attempts], react=[[k[0], k[1], v] for k, v in react.items()]), family="C16:real-attempts")
+    rep.families.append(dict(name="C16:real-attempts", cases=cases, rule="persist() driving the REAL WebSocket/WebsocketSession over the simulated network through 2-8 attempts that fail in different ways (resolver/connect failure, request write failing with various errnos and error texts, rejection, EOF, garbage, protocol error, recv failure), the application calling close() or sending at some events (also at Connecting, before the connection exists): it must never end by itself, must back off after every attempt and leave no socket open"))
 
 
 def gen(rnd, long_fail=False):
@@ -360,7 +375,7 @@ def replay(body):
         attempts = [fam.unjson_sc(a) for a in sc["attempts"]]
         for a in attempts:
             a["steps"] = [tuple(x) for x in a.get("steps", [])]
-        bad = judge_real(attempts)
+        bad = judge_real(attempts, {(r[0], r[1]): r[2] for r in sc.get("react", [])})
         print("REPLAY:", ("VIOLATION reproduced: %s" % bad) if bad else "property holds on this input")
         return 1 if bad else 0
     if sc.get("kind") != "outcome-sequence":
